@@ -202,6 +202,10 @@ pub fn judge(h: &History, recs: &[StepRec]) -> Result<(u32, u32), Failure> {
     let mut pending: Option<(Vec<(u8, usize)>, Vec<Req>, VerifSnapshot, VerifSnapshot, usize)> = None;
     let mut sticky: Vec<(u8, Vec<u8>)> = vec![];
     let mut sticky_known = true;
+    // the join-channel bias of fixed plans may choose channel and data rate of data frames until a
+    // channel mask arrives (CFList or an accepted LinkADRReq): until then the data rate on the air is
+    // not judged
+    let mut bias_possible = h.cfg.join_bias.is_some();
     for (ri, r) in recs.iter().enumerate() {
         if r.outcome.is_panic() {
             break;
@@ -213,6 +217,7 @@ pub fn judge(h: &History, recs: &[StepRec]) -> Result<(u32, u32), Failure> {
             pending = None;
             sticky.clear();
             sticky_known = true;
+            bias_possible = h.cfg.join_bias.is_some();
             continue;
         }
         // ---- the uplink of this record carries the answers to what is pending
@@ -324,6 +329,7 @@ pub fn judge(h: &History, recs: &[StepRec]) -> Result<(u32, u32), Failure> {
                                         return Err(Failure::new("must-reject", case(), format!("LinkADRReq block {block:?} answered with full ACK although: {}", why.join("; "))).with_fp(format!("must-reject/LinkADRReq/{}", why[0].split(' ').take(2).collect::<Vec<_>>().join("-"))));
                                     }
                                     // apply
+                                    bias_possible = false;
                                     m.mask = work.mask;
                                     m.data_rate = new_dr;
                                     if *txp != 15 {
@@ -477,6 +483,16 @@ pub fn judge(h: &History, recs: &[StepRec]) -> Result<(u32, u32), Failure> {
                 }
             }
         }
+        // ---- "has taken effect exactly as commanded": the data rate in force is the one on the air
+        if let Some(t) = r.txs.iter().find(|t| !t.join) {
+            if !bias_possible {
+                let on_air = reg.dr_of(t.rf.sf, t.rf.bw_hz, true);
+                let ok = [r.snap_before.data_rate, r.snap_after.data_rate].iter().any(|d| on_air == Some(*d));
+                if !ok {
+                    return Err(Failure::new("do-what-you-answer", case(), format!("step {}.{}: uplink transmitted at SF{}/{} Hz ({on_air:?}); the data rate in force is DR{} (DR{} after the transaction)\n{}", r.index, r.sub, t.rf.sf, t.rf.bw_hz, r.snap_before.data_rate, r.snap_after.data_rate, render(&recs[ri.saturating_sub(1)..=ri], 2))).with_fp("effect/data-rate-on-air"));
+                }
+            }
+        }
         // ---- a downlink accepted in a Class A window of this record creates new obligations
         if let Some(d) = r.deliveries.iter().find(|d| matches!(d.slot, Slot::Rx1 | Slot::Rx2) && matches!(d.verdict, Verdict::Accept { .. })) {
             if let Verdict::Accept { fopts, fport, plain, .. } = &d.verdict {
@@ -550,6 +566,9 @@ pub fn history_strategy() -> impl Strategy<Value = History> {
 pub fn replay(case: &Value, _kf: &KnownFindings) -> Result<(), Failure> {
     let h = History::from_json(case);
     let (_, recs) = run_history(&h).map_err(|e| Failure::new("harness", h.json(), e))?;
+    if std::env::var("VERIF_DEBUG").is_ok() {
+        eprintln!("{}", render(&recs, 50));
+    }
     judge(&h, &recs).map(|_| ())
 }
 
@@ -571,14 +590,14 @@ fn run_one(h: &History, st: &mut Stats, class: &str) -> Result<(), Failure> {
 
 pub fn run(ctx: &mut Ctx) {
     let thorough = ctx.tier == Tier::Thorough;
-    ctx.rule = "(a0) Class C interplay: 5 request bundles x 5 kinds of Class C traffic (accepted plain / confirmed / MAC-bearing, rejected) heard while idle or between the windows of the following uplinks, before and after the answering uplink; (a) field sweeps: every DR x TXPower nibble pair x every ChMaskCntl x mask patterns (single commands and blocks of 2-3), every DLSettings byte x frequency set, every RXTimingSetupReq value, NewChannelReq index x frequency set x DrRange, DlChannelReq index x frequency set, each as an authentic downlink (FOpts or port 0, RX1 or RX2) followed by three uplinks so that answers and stickiness are observed; (b) proptest histories of 2..9 transactions with 1..6 commands per downlink (valid-biased and arbitrary values), uplinks on port 0, rejected frames and Class C frames interleaved; 9 regions, nb/async/async+ClassC. Oracle: answers of the next uplink parsed by the reference codec (order, whole commands, 15-byte rule, only trailing drops, identical LinkADRAns copies); the device's own answer bits folded over the snapshot taken before the downlink must reproduce the snapshot after it (ACK = applied per the reference semantics, NAK = nothing changed); full ACKs of requests in the conservative must-reject set are violations; sticky answers repeat until the next Class A downlink. Non-trivial: history with >= 1 judged downlink carrying requests; distinct by hash".into();
+    ctx.rule = "(a00) fixed plans with a join-channel bias (8 sub-bands x 1/2/4/9 retries x OTAA/ABP x 0/1/3 uplinks before) followed by 8 LinkADRReq shapes incl. a mask equal to the one in force: the commanded data rate must be the one on the air from the answering uplink on; (a0) Class C interplay: 5 request bundles x 5 kinds of Class C traffic (accepted plain / confirmed / MAC-bearing, rejected) heard while idle or between the windows of the following uplinks, before and after the answering uplink; (a) field sweeps: every DR x TXPower nibble pair x every ChMaskCntl x mask patterns (single commands and blocks of 2-3), every DLSettings byte x frequency set, every RXTimingSetupReq value, NewChannelReq index x frequency set x DrRange, DlChannelReq index x frequency set, each as an authentic downlink (FOpts or port 0, RX1 or RX2) followed by three uplinks so that answers and stickiness are observed; (b) proptest histories of 2..9 transactions with 1..6 commands per downlink (valid-biased and arbitrary values), uplinks on port 0, rejected frames and Class C frames interleaved; 9 regions, nb/async/async+ClassC. Oracle: answers of the next uplink parsed by the reference codec (order, whole commands, 15-byte rule, only trailing drops, identical LinkADRAns copies); the device's own answer bits folded over the snapshot taken before the downlink must reproduce the snapshot after it (ACK = applied per the reference semantics, NAK = nothing changed); full ACKs of requests in the conservative must-reject set are violations; sticky answers repeat until the next Class A downlink. Non-trivial: history with >= 1 judged downlink carrying requests; distinct by hash".into();
     ctx.assumptions = vec![
         "must-reject set is deliberately conservative (RFU ChMaskCntl, undefined/downlink-only DataRate, TXPower index outside the table, mask leaving no usable channel, RX1DROffset above the maximum, undefined RX2 DR, out-of-band frequency, NewChannelReq on default channels / index >= 16 / min>max, DlChannelReq on an undefined channel); everything else may be ACKed or NAKed but must be consistent".into(),
         "masks are compared on the effective set (mask AND defined channels)".into(),
         "when trailing answers are dropped (15-byte rule) the effect of that downlink is not judged".into(),
     ];
     let seed = ctx.seed;
-    let regions: Vec<RegionId> = if thorough { REGIONS.to_vec() } else { vec![RegionId::Eu868, RegionId::Us915, RegionId::As923_1, RegionId::Au915, RegionId::Eu433, RegionId::In865] };
+    let regions: Vec<RegionId> = REGIONS.to_vec();
     let mut jobs = vec![];
     for r in &regions {
         for f in [FrontKind::Async, FrontKind::Nb] {
@@ -673,6 +692,46 @@ pub fn run(ctx: &mut Ctx) {
                             v.push([Cmd::DevStatusReq, Cmd::RxParamSetupReq { dl_settings: 0, freq: fs[4] }, Cmd::RxTimingSetupReq(2), Cmd::LinkAdrReq { dr: 15, txp: 15, mask: 7, cntl: 0, nbtrans: 1 }, Cmd::DlChannelReq { idx: 0, freq: fs[5] }][(j + k) % 5].clone());
                         }
                         emit(v, st, "answer-overflow");
+                    }
+                }
+            }
+        }
+    });
+    // ---- fixed plans with a join-channel bias: the bias ends with the first accepted LinkADRReq,
+    // whatever mask it carries (also one equal to the mask in force)
+    ctx.parallel(|ti, n, st| {
+        let mut k = 0usize;
+        for region in regions.iter().filter(|r| Reg::from_name(r.name()).unwrap().fixed()) {
+            for front in [FrontKind::Async, FrontKind::Nb] {
+                for sb in 1..=8u8 {
+                    for retries in [1usize, 2, 4, 9] {
+                        for otaa in [true, false] {
+                          for before in [0usize, 1, 3] {
+                            for (dr, cntl, mask) in [(1u8, 6u8, 0x00FFu16), (3, 6, 0x00FF), (2, 6, 0x0001), (3, 0, 0xFFFF), (3, (sb - 1) / 2, if sb % 2 == 1 { 0x00FF } else { 0xFF00 }), (4, 6, 1u16 << (sb - 1)), (15, 6, 0x00FF), (2, 7, 1u16 << (sb - 1))] {
+                                k += 1;
+                                if k % n != ti {
+                                    continue;
+                                }
+                                let cfg = DevCfg { region: *region, join_bias: Some((sb, retries)), front, board: (14, 0) };
+                                let mut steps = vec![];
+                                if otaa {
+                                    steps.push(Step::Join(RxPlan::rx1(Recipe::JoinAccept { dl_settings: 0, rx_delay: 1, cflist: None, wrong_key: false, stale_nonce: false, flip_bit: None, dev_addr: 0x01020304, net_id: 0x13, join_nonce: 7 })));
+                                }
+                                let up = Step::Send { port: 7, len: 2, confirmed: false, rx: RxPlan::default() };
+                                for _ in 0..before {
+                                    steps.push(up.clone());
+                                }
+                                steps.push(Step::Send { port: 1, len: 1, confirmed: false, rx: RxPlan::rx1(Recipe::auth_cmds(1, vec![Cmd::LinkAdrReq { dr, txp: 15, mask, cntl, nbtrans: 1 }])) });
+                                steps.push(up.clone());
+                                steps.push(up.clone());
+                                steps.push(up);
+                                let h = History { cfg, activation: if otaa { Activation::Otaa } else { Activation::Abp { fcnt_up: 0, fcnt_down: None } }, board: Board::default(), rng_script: vec![], rng_seed: seed ^ k as u64, steps };
+                                if let Err(f) = run_one(&h, st, "join-bias-then-linkadr") {
+                                    st.fail(f);
+                                }
+                            }
+                          }
+                        }
                     }
                 }
             }
